@@ -68,11 +68,11 @@ def gen_cases(rng, tier):
             key = ['fmt', '{n}']
         cases.append({'kind': 'sort', 'rows': rows_enc(gen_rows(rng, nrows, cols)), 'key': key, 'reverse': rev,
                       'batch_size': bs, 'names': ['i'] + list(cols)})
-    if tier == 'thorough':
-        for big in (10241, 12000):
-            cols = {'n': list(range(-50, 50))}
-            cases.append({'kind': 'sort', 'rows': rows_enc(gen_rows(rng, big, cols)), 'key': ['list', ['n']],
-                          'reverse': False, 'batch_size': 1000, 'names': ['i', 'n'], 'big': True})
+    # above the ordered store's 10240-entry cache (the result must not depend on fitting in it), both directions
+    for big, rev in ([(10241, True)] if tier != 'thorough' else [(10241, True), (10241, False), (12000, True), (12000, False)]):
+        cols = {'n': list(range(-50, 50))}
+        cases.append({'kind': 'sort', 'rows': rows_enc(gen_rows(rng, big, cols)), 'key': ['list', ['n']],
+                      'reverse': rev, 'batch_size': 1000, 'names': ['i', 'n'], 'big': True})
     return cases
 
 
